@@ -12,6 +12,7 @@ import (
 	"crypto/rand"
 	"fmt"
 	"reflect"
+	"strings"
 
 	"github.com/taurusgroup/multi-party-sig/internal/elgamal"
 	"github.com/taurusgroup/multi-party-sig/internal/zzverif/drv"
@@ -23,12 +24,30 @@ import (
 	zksch "github.com/taurusgroup/multi-party-sig/pkg/zk/sch"
 )
 
-const forgeryNote = "adaptive-statement forgeries are mounted for sch (public, gen), log (X, Y, H), elog (Y, E.M, E.L), logstar (X), mulstar (X), dec (X), affg (Xp); the other statement fields enter non-linear (Paillier / Pedersen) relations and are covered by substitution only"
+const forgeryNote = "adaptive-statement forgeries are mounted for sch (public, gen), log (X, Y, H), elog (Y, E.M, E.L), logstar (X), mulstar (X), dec (X), affg (Xp); the other statement fields enter non-linear (Paillier / Pedersen) relations and are covered by substitution only. " + commitmentForgeryNote + ". " + rebindNote
 
 type forgery struct {
+	// field: the statement field solved for, or "commitment:<field>" for an adaptive
+	// commitment-field forgery (forge3.go); it is the Mut of the case id, which is what a
+	// replay of kind "forgery" is looked up by
 	sys, field string
+	// eq: the verification equation that was solved (commitment forgeries; documentation only)
+	eq string
 	// make returns the forged statement and proof (built with the challenge for a dummy field)
 	make func(ctx string) (pub interface{}, proof interface{})
+}
+
+const (
+	commitmentPrefix = "commitment:"
+	rebindPrefix     = "commitment-rebind:" // forge4.go: a commitment re-chosen after the challenge, true statement
+)
+
+// commitmentField returns the commitment field a forgery solves for ("" for a statement forgery).
+func (f *forgery) commitmentField() string {
+	if strings.HasPrefix(f.field, commitmentPrefix) {
+		return f.field[len(commitmentPrefix):]
+	}
+	return ""
 }
 
 func rs() curve.Scalar { return sample.ScalarUnit(rand.Reader, group) }
@@ -148,6 +167,8 @@ func forgeries() []*forgery {
 		return pub, mkElog(cm, z, u)
 	}})
 	l = append(l, paillierForgeries()...)
+	l = append(l, commitmentForgeries()...)
+	l = append(l, rebindForgeries()...)
 	return l
 }
 
@@ -171,6 +192,15 @@ func runForgery(f *forgery) (violated bool) {
 		case v.panicked:
 			violated = true
 			res.Violate(fmt.Sprintf("panic|%s|%s", f.sys, v.fr), fmt.Sprintf("Verify panicked on a forged pair (%s.%s): %s", f.sys, f.field, v.msg), id)
+		case v.ok && f.commitmentField() != "":
+			violated = true
+			res.Violate(fmt.Sprintf("zk|%s|commitment-forgery|%s|accepted", f.sys, f.commitmentField()),
+				fmt.Sprintf("adaptive commitment forgery accepted: the challenge does not depend on commitment field %s, so a prover can run the honest algorithm on a FALSE statement, learn the challenge e and then solve the verification equation %s for %s; Verify accepts the false statement\nforged (false) statement: %s\nforged proof: %s", f.commitmentField(), f.eq, f.commitmentField(), describe(pub), describe(proof)), id)
+		case v.ok && strings.HasPrefix(f.field, rebindPrefix):
+			violated = true
+			fld := f.field[len(rebindPrefix):]
+			res.Violate(fmt.Sprintf("zk|%s|commitment-unbound|%s|accepted", f.sys, fld),
+				fmt.Sprintf("a proof whose commitment %s was re-chosen AFTER the challenge (and one response adapted with the known challenge: %s) verifies: the challenge does not depend on %s\nstatement: %s\nproof: %s", fld, f.eq, fld, describe(pub), describe(proof)), id)
 		case v.ok:
 			violated = true
 			res.Violate(fmt.Sprintf("zk|%s|forgery|%s|accepted", f.sys, f.field),
